@@ -22,7 +22,7 @@ ASSUMPTIONS = [
 ]
 MANIFEST = {'text': 'proof (over-approximating backward data provenance) that no path component of an extracted file comes from an unsanitised member name: sinks are fed by enclosed_name()/file_stem()-derived '
                     'rename values joined onto a TempDir path; the set of fs-mutating call sites in the archive module equals the reviewed set.'
-                    ' Added: the volume chain never signals end-of-data with volumes remaining, and repositions a volume reader relatively only when its position is known (rel_pos != 0). Added: a binary search in the archive module compares by the key type the sequence was sorted by (String order is not Path order). Added: extract_to_dir writes a member only after the membership test matched it, or when no filter was requested (an emptied name list is not \'no filter\').'}
+                    ' Added: the volume chain never signals end-of-data with volumes remaining, and repositions a volume reader relatively only when its position is known (rel_pos != 0). Added: a binary search in the archive module compares by the key type the sequence was sorted by (String order is not Path order). Added: extract_to_dir writes a member only after the membership test matched it, or when no filter was requested (an emptied name list is not \'no filter\'). Added: the position cache of the shared archive reader is re-based after every absolute seek (a genuine defect found and repaired, 1866d85); inside the zip member loop a name is reported as extracted only behind the copy of the member bytes in the same iteration.'}
 
 SINK = re.compile(r'^std::fs::(create_dir_all|create_dir|File::create|File::create_new|write|rename|copy|remove_file|remove_dir_all|remove_dir|hard_link|OpenOptions::open|set_permissions)$|^std::os::unix::fs::symlink$')
 FORBIDDEN = re.compile(r'ZipFile(::<[^>]*>|<[^>]*>)?::(name|mangled_name|name_raw)$')
@@ -156,6 +156,107 @@ def run(F, chk):
     check_lookup_order(F, X8)
     X9 = chk.rule('X9', 'extract_to_dir writes a member only on a path that matched it against the requested names, or where the caller requested no filter at all (None) - an emptied list is not "no filter"')
     check_member_written_only_if_selected(F, X9)
+    X11 = chk.rule('X11', 'zip extraction: inside the member loop a name is reported as extracted only behind the copy of that member\'s bytes into the freshly created file in the same iteration (an existing file of the same name / size is not the member)')
+    check_reported_means_copied(F, X11)
+    X10 = chk.rule('X10', 'shared archive reader: a cached position of the inner stream is re-based (pos = target) after every absolute seek of that stream before it is advanced relatively (pos += n) - otherwise a later read at the stale value skips its seek and returns bytes from elsewhere')
+    check_position_cache(F, X10)
+
+
+# ---------------------------------------------------------------------------------------------
+# X11: reported as extracted = copied in this iteration
+
+def check_reported_means_copied(F, X11):
+    """"with contents identical to the archive member": the caller opens what extract_to_dir reports.  Inside the loop over the
+    members of the zip archive the only evidence that <target>/<name> holds the member's bytes is that they were just copied
+    there.  A push of the name on a path around the copy (file exists already, same size, ..) reports a file whose content
+    comes from somewhere else - an earlier archive, another member with an equivalent name.  (The documented shortcut for
+    requested names that already exist is taken before the loop and is not touched by this rule.)"""
+    from cfg import CFG
+    b = F.get('adlt::utils::unzip::extract_to_dir')
+    if b is None:
+        X11.violation(('anchor-lost', 'extract_to_dir'), 'extract_to_dir not found')
+        return
+    X11.fn(b.path)
+    cfg = CFG(b)
+    loops = cfg.loops()
+    idx = [blk.i for blk in b.calls() if blk.term.callee.path.endswith('ZipArchive::<R>::by_index') or blk.term.callee.path.endswith('::by_index')]
+    X11.floor('zip member accesses (by_index) in extract_to_dir', len(idx), 1)
+    member_loops = [lb for hd, lb in loops.items() if any(i in lb for i in idx)]
+    if not member_loops:
+        X11.violation(('anchor-lost', 'zip member loop'), 'no loop around ZipArchive::by_index found in extract_to_dir')
+        return
+    lb = min(member_loops, key=len)
+    copies = [blk.i for blk in b.calls() if blk.i in lb and re.search(r'(::cancelable_copy|std::io::copy|io::Write::write_all)$', blk.term.callee.path)]
+    pushes = []
+    for blk in b.calls():
+        t = blk.term
+        if blk.i in lb and t.callee.path.endswith('Vec::<T, A>::push') and t.args and 'PathBuf' in (t.args[0].ty or ''):
+            o = cfg.origin_of_operand(t.args[0])
+            if o is not None and (b.name_of(o.l) or '') == 'extracted':
+                pushes.append(blk)
+    X11.floor('reports (extracted.push) inside the zip member loop', len(pushes), 1)
+    X11.floor('copies of member bytes inside the zip member loop', len(copies), 1)
+    for blk in pushes:
+        X11.sites += 1
+        # the copy must lie on every path from the loop head to the push: the push is not reachable from the member access without a copy
+        reach = set()
+        for i in idx:
+            if i in lb:
+                reach |= cfg.reachable_from(i, avoid=set(copies))
+        if blk.i in reach:
+            X11.violation(('reported-without-copy', b.path), 'extract_to_dir reports a member as extracted at %s on a path of the member loop that did not copy its bytes in this iteration: the file found under that name can hold other content' % b.loc(blk.term.sp), where=b.loc(blk.term.sp))
+        else:
+            X11.ok(sample={'report_at': b.loc(blk.term.sp), 'behind': 'copy of the member bytes in the same iteration'})
+
+
+# ---------------------------------------------------------------------------------------------
+# X10: position cache of the shared reader
+
+def check_position_cache(F, X10):
+    """"contents identical to the archive member": the zip reader reads members through CloneableSeekableReader, whose Inner
+    keeps `pos`, "the position of r", to skip redundant seeks (`if offset != self.pos { r.seek(Start(offset)) }`).  That test
+    is only sound while pos really is the position of r: after the seek pos must become `offset` before the bytes read are
+    added.  If it keeps its old value, pos drifts away from the stream position; a later request at exactly the stale value
+    is served without a seek - from wherever the stream happens to be."""
+    from cfg import CFG
+    from expr import ExprBuilder, show
+    bodies = [b for b in F.order if b.crate == 'lib' and (b.impl_self or '').startswith('adlt::utils::cloneable_seekable_reader::Inner') and b.kind != 'closure']
+    X10.floor('methods of the shared reader core (cloneable_seekable_reader::Inner)', len(bodies), 2)
+    n = 0
+    for b in bodies:
+        cfg = CFG(b)
+        E = ExprBuilder(cfg, fold_named=True)
+        seeks = []
+        for blk in b.calls():
+            t = blk.term
+            if t.callee.path.endswith('io::Seek::seek') and t.args and re.search(r'\(\*self\)\.r\b', show(E.operand(t.args[0]))) and t.d.get('t') is not None:
+                seeks.append(blk)
+        if not seeks:
+            continue
+        X10.fn(b.path)
+        absolute, relative = set(), set()
+        for blk in b.blocks:
+            if blk.cleanup:
+                continue
+            for s_ in blk.stmts:
+                if s_.k == 'assign' and show(E.target(s_.place)) == '(*self).pos':
+                    e = E.rvalue(s_.rv)
+                    se = show(e)
+                    if '(*self).pos' in se:
+                        relative.add(blk.i)
+                    else:
+                        absolute.add(blk.i)
+        for sk in seeks:
+            n += 1
+            X10.sites += 1
+            region = cfg.reachable_from(sk.term.d['t'], avoid=absolute)
+            stale = sorted(x for x in region if x in relative)
+            if stale:
+                X10.violation(('cached-position-stale-after-seek', b.path), '%s seeks the inner stream at %s and then advances the cached position relatively at %s without having set it to the seek target: '
+                              'the cache no longer is the position of the stream, a later read at the stale value skips its seek and returns bytes of another offset' % (b.path, b.loc(sk.term.sp), b.loc(b.blocks[stale[0]].term.sp)), where=b.loc(sk.term.sp))
+            else:
+                X10.ok(sample={'function': b.path, 'seek_at': b.loc(sk.term.sp), 'cache': 'pos re-based before it is advanced'})
+    X10.floor('absolute seeks of the inner stream in the shared reader', n, 1)
 
 
 # ---------------------------------------------------------------------------------------------
@@ -589,6 +690,12 @@ def check_member_written_only_if_selected(F, X9):
     def block_effect(blk, facts):
         if blk.i in heads:
             facts = frozenset(f for f in facts if f != ('matched',))
+        # `let wanted = match &filter { Some(names) => names.iter().any(..), None => true }`: which definition of the bool arrives
+        for s in blk.stmts:
+            if s.k == 'assign' and s.place.is_local and not s.place.p and b.lty(s.place.l) == 'bool' and any(f[0] == 'anyres' and f[1] == s.place.l for f in facts):
+                facts = frozenset(f for f in facts if not (f[0] == 'anyres' and f[1] == s.place.l))
+        if blk.i in any_blocks and blk.term.k == 'call' and blk.term.dest.is_local and not blk.term.dest.p:
+            facts = frozenset(facts | {('anyres', blk.term.dest.l)})
         for s in blk.stmts:
             if s.k == 'assign' and s.place.is_local and not s.place.p and s.rv['k'] == 'agg' and (s.rv.get('adt') or '').endswith('option::Option') and s.rv.get('variant') in ('Some', 'None'):
                 k = place_key(s.place)
@@ -618,6 +725,23 @@ def check_member_written_only_if_selected(F, X9):
                     sd = cfg.single_def(Op(sd[2].rv['a']).place.l)
                 elif sd is not None and sd[1] != 'call' and sd[2].rv['k'] == 'use' and Op(sd[2].rv['o']).place is not None and Op(sd[2].rv['o']).place.is_local:
                     sd = cfg.single_def(Op(sd[2].rv['o']).place.l)
+            base = d.place.l
+            neg2 = False
+            for _ in range(4):
+                sdb = cfg.single_def(base)
+                if sdb is not None and sdb[1] != 'call' and sdb[2].rv['k'] == 'un' and sdb[2].rv['op'] == 'Not' and Op(sdb[2].rv['a']).place is not None and not Op(sdb[2].rv['a']).place.p:
+                    neg2 = not neg2
+                    base = Op(sdb[2].rv['a']).place.l
+                elif sdb is not None and sdb[1] != 'call' and sdb[2].rv['k'] == 'use' and Op(sdb[2].rv['o']).place is not None and Op(sdb[2].rv['o']).place.is_local and not Op(sdb[2].rv['o']).place.p:
+                    base = Op(sdb[2].rv['o']).place.l
+                else:
+                    break
+            if ('anyres', base) in facts and not (sd is not None and sd[1] == 'call' and sd[0] in any_blocks):
+                for v, t_ in blk.term.d['vals']:
+                    if t_ == tgt and bool(v) != neg2:
+                        return frozenset(facts | {('matched',)})
+                if blk.term.d['otherwise'] == tgt and [v for v, _ in blk.term.d['vals']] == [0] and not neg2:
+                    return frozenset(facts | {('matched',)})
             if sd is not None and sd[1] == 'call' and sd[0] in any_blocks:
                 for v, t_ in blk.term.d['vals']:
                     if t_ == tgt and bool(v) != neg:
